@@ -283,13 +283,19 @@ def run(F, R, tier):
             setarm = arms_.get("SetProvisionFinished")
             for (bi, si, kind, payload) in Ba.defs[tl[0]]:
                 org = Ba.origins(payload["rv"]["o"]) if kind == "assign" and payload["rv"]["k"] == "use" else set()
-                if org and all(o[0] == "const" and o[2] == 0 for o in org):
-                    det.append("0")
-                elif org and all(o[0] == "call" and q.ends(o[1], "misc_helpers::get_date_time_unix_nano") for o in org) and setarm and bi in setarm[2]:
-                    det.append("now@SetProvisionFinished")
-                else:
+                # each value a definition can store: 0, or the clock read in the SetProvisionFinished arm (one assignment per value, or
+                # one assignment of `if finished { now() } else { 0 }`)
+                if not org:
                     det.append("other@line %s" % Ba.line(bi))
                     okt = False
+                for o in sorted(org, key=str):
+                    if o[0] == "const" and o[2] == 0:
+                        det.append("0")
+                    elif o[0] == "call" and q.ends(o[1], "misc_helpers::get_date_time_unix_nano") and setarm and bi in setarm[2] and o[2] in setarm[2]:
+                        det.append("now@SetProvisionFinished")
+                    else:
+                        det.append("other@line %s" % Ba.line(bi))
+                        okt = False
             okt = okt and "now@SetProvisionFinished" in det
             # replies of Set/GetProvisionFinished carry the variable itself
             for arm in ("SetProvisionFinished", "GetProvisionFinished"):
